@@ -30,6 +30,10 @@ fn r(o: Output<f32, ()>, keep: &mut Vec<*mut G>) -> Reference<dyn Getter<f32, ()
 /// fill a stretch of stack with a byte pattern (what an earlier call frame may have left behind)
 #[inline(never)]
 fn dirty(pattern: u8) -> u64 {
+    if cfg!(miri) {
+        // Miri tracks initialisation itself; dirtying the stack byte by byte would only cost hours
+        return pattern as u64;
+    }
     let mut buf = [0u8; 4096];
     for b in buf.iter_mut() {
         unsafe { core::ptr::write_volatile(b, pattern) };
